@@ -109,7 +109,7 @@ def expected_tables(sc, rec):
 
 def values_check(tier):
     r = common.rng("C10.values")
-    n = 25 if tier == "quick" else 300
+    n = 40 if tier == "quick" else 400
     fails, keys, scs = [], [], []
     for fe, fr in L.COMBOS:
         for _ in range(n):
